@@ -204,6 +204,9 @@ func (p *c01) gen(seed uint64, idx int) *c01History {
 			}
 		}
 	}
+	h.srcs["optinc"] = "[{% include 'late_opt' ignore missing %}|{% include 'part' ignore missing %}]"
+	lateOpt := false
+	lateEng := map[string]int{}
 	bads := sortedKeys(c01BadTemplates)
 	cacheOn := make([]bool, h.nEng)
 	for i := range cacheOn {
@@ -211,7 +214,7 @@ func (p *c01) gen(seed uint64, idx int) *c01History {
 	}
 	for i := 0; i < n; i++ {
 		op := c01Op{Eng: r.Intn(h.nEng), CtxK: r.Intn(3)}
-		switch k := r.Intn(28); {
+		switch k := r.Intn(30); {
 		case k < 8:
 			op.Kind, op.Name = "render", entries[r.Intn(len(entries))]
 		case k < 10:
@@ -267,6 +270,16 @@ func (p *c01) gen(seed uint64, idx int) *c01History {
 			// modification time moves on and it is loaded again: the engine replaces its cached template; the template it
 			// handed out before stays whole
 			op.Kind, op.Name = "tsReload", "tsdoc"
+		case k >= 28:
+			// a name no loader has is asked for (directly, and through an optional include), then the engine's loader gets a
+			// template of that name: from then on the name is what the loader says it is
+			op.Kind, op.Name = "lateAppears", fmt.Sprintf("late%d", i)
+			if !lateOpt {
+				op.Name, lateOpt = "late_opt", true
+			}
+			op.Src = fmt.Sprintf("LATE%d<{{ engineId }}>", i)
+			entries = append(entries, op.Name, "optinc")
+			lateEng[op.Name] = op.Eng
 		default:
 			// a template object of this engine (a parsed handle, or the cached template of a name) is also registered on
 			// another engine under a name nothing uses: this engine's renders of it are none of that engine's business
@@ -275,6 +288,10 @@ func (p *c01) gen(seed uint64, idx int) *c01History {
 				op.Handle = r.Intn(len(h.handles))
 				op.Eng = h.hEng[op.Handle]
 			}
+		}
+		if eng, late := lateEng[op.Name]; late && eng != op.Eng && op.Kind != "lateAppears" {
+			// (a name that appeared on one engine means nothing to the others)
+			op.Name = "optinc"
 		}
 		h.ops = append(h.ops, op)
 	}
@@ -304,6 +321,8 @@ func (h *c01History) state(k int) []*c01Engine {
 		switch op.Kind {
 		case "newVersion":
 			e.srcs[op.Name] = newVersionSrc(op.Name, e.srcs[op.Name], op.N)
+		case "lateAppears":
+			e.srcs[op.Name] = op.Src
 		case "setCache":
 			e.cache = op.N == 1
 		case "setDebugOther":
@@ -346,7 +365,8 @@ func c01NewEngine(st *c01Engine) (*twig.Engine, *twig.ArrayLoader) {
 	c01TsLoaders[e] = ts
 	defer func() {
 		e.RegisterLoader(ts)
-		e.SetAutoReload(true)
+		// (one engine in three reloads by timestamp; the others keep the default: what is cached stays)
+		e.SetAutoReload(st.idx == 1)
 	}()
 	cp := map[string]string{}
 	for k, v := range st.srcs {
@@ -658,6 +678,14 @@ func (p *c01) Run(rec *core.Recorder, seed uint64, idx int, tier string) {
 				}
 				compare(k, o, false)
 			}
+		case "lateAppears":
+			e.Render(op.Name, ctx) // not there yet
+			e.Render("optinc", ctx)
+			loaders[op.Eng].SetTemplate(op.Name, op.Src)
+			for _, n := range e.VerifCachedNames() {
+				changed[n] = true // (what included the name while it was missing is stale by design, like after newVersion)
+			}
+			rec.Count("names-that-appear-later", 1)
 		case "tsReload":
 			if ts := c01TsLoaders[e]; ts != nil && e.IsCacheEnabled() {
 				if t, err := e.Load("tsdoc"); err == nil && t != nil {
